@@ -8,7 +8,9 @@ unbounded): the inductive invariant `Inv` (Proofs/ConcInv) holds in every reacha
 a granted read guard shows the complete, executable buffer of the latest completed commit/alter; nothing the assembling thread
 does changes the shared buffer while a guard is held; versions never go back; at every API boundary the latest operation is
 visible; finalize succeeds only without executors; and some thread can always move (no deadlock).
-`std::sync::RwLock` is an ideal reader-writer lock here (no poisoning, no fairness assumption).
+`std::sync::RwLock` is an ideal reader-writer lock with poisoning (a thread that panics while it holds the write guard makes every
+later `read()`/`write()` fail; `Executor::lock` unwraps, so it gets no guard) and no fairness assumption. `Act.abort` is such a panic of
+the assembling thread at an arbitrary point.
 -/
 
 namespace DynasmVerif.C09
@@ -31,17 +33,17 @@ theorem inv_run (e : Nat) (acts : List Act) (s : State) (h : run (init e) acts =
 /-- **a granted read guard shows the committed contents of the latest completed operation**: complete, executable, current -/
 theorem snapshot_is_commit_boundary (s s' : State) (h : Inv s) (hl : step s .rlock = some s') :
     view s = some ⟨.rx, s.done, true⟩ := by
-  obtain ⟨hex, hge, hpc⟩ := h
-  obtain ⟨pc, writer, readers, slot, own, done, executors⟩ := s
+  obtain ⟨hex, hge, hpc, hpo⟩ := h
+  obtain ⟨pc, writer, readers, slot, own, done, executors, poisoned⟩ := s
   simp [step, canRead] at hl
   obtain ⟨⟨hw, _⟩, _⟩ := hl
   cases pc <;> simp_all [pcInv, good, view]
 
 /-- **while a guard is held nothing changes the shared buffer** (address, length, contents, protection are one `Buf` here) -/
 theorem guard_stable (s s' : State) (a : Act) (h : Inv s) (hr : 0 < s.readers) (hs : step s a = some s') : s'.slot = s.slot := by
-  obtain ⟨hex, hge, hpc⟩ := h
+  obtain ⟨hex, hge, hpc, hpo⟩ := h
   have hw := hex hr
-  obtain ⟨pc, writer, readers, slot, own, done, executors⟩ := s
+  obtain ⟨pc, writer, readers, slot, own, done, executors, poisoned⟩ := s
   simp only at hw hr
   subst hw
   cases a <;> cases pc <;> simp [step, canWrite, canRead, setProt] at hs <;> simp only [pcInv, good] at hpc <;>
@@ -52,7 +54,7 @@ theorem guard_stable (s s' : State) (a : Act) (h : Inv s) (hr : 0 < s.readers) (
 
 /-- versions observed never go back -/
 theorem done_monotone (s s' : State) (a : Act) (hs : step s a = some s') : s.done ≤ s'.done := by
-  obtain ⟨pc, writer, readers, slot, own, done, executors⟩ := s
+  obtain ⟨pc, writer, readers, slot, own, done, executors, poisoned⟩ := s
   cases a <;> cases pc <;> simp [step, canWrite, canRead, setProt] at hs <;>
     first
     | (obtain ⟨hc, rfl⟩ := hs; simp)
@@ -68,7 +70,7 @@ theorem visible_after_return (s : State) (h : Inv s) (hp : s.pc = .idle) : s.wri
 /-- every operation that completes publishes exactly one new version, at the moment the write guard is released -/
 theorem completion_publishes (s s' : State) (hs : step s .step = some s') (hp : s.pc = .ipRestored ∨ s.pc = .gAdjusted ∨ s.pc = .aRestored) :
     s'.done = s.done + 1 ∧ s'.writer = false := by
-  obtain ⟨pc, writer, readers, slot, own, done, executors⟩ := s
+  obtain ⟨pc, writer, readers, slot, own, done, executors, poisoned⟩ := s
   rcases hp with hp | hp | hp <;> simp only at hp <;> subst hp <;> simp [step, canWrite, setProt] at hs
   · subst hs; simp
   · obtain ⟨hc, rfl⟩ := hs; simp [hc.1]
@@ -86,14 +88,16 @@ theorem finalize_requires_no_executor (s : State) (h : Inv s) (hp : s.pc = .fina
 
 /-- **no deadlock**: in every reachable state that is not the end, some thread can move; and when no guard is held, the
 assembling thread itself can -/
-theorem no_deadlock (s : State) (h : Inv s) (hp : s.pc ≠ .finalized) : ∃ a, (step s a).isSome = true := by
+theorem no_deadlock (s : State) (h : Inv s) (hp : s.pc ≠ .finalized) (hd : s.pc ≠ .dead) : ∃ a, (step s a).isSome = true := by
   by_cases hr : 0 < s.readers
   · exact ⟨.runlock, by simp [step, hr]⟩
-  · obtain ⟨hex, hge, hpc⟩ := h
-    obtain ⟨pc, writer, readers, slot, own, done, executors⟩ := s
+  · obtain ⟨hex, hge, hpc, hpo⟩ := h
+    obtain ⟨pc, writer, readers, slot, own, done, executors, poisoned⟩ := s
     have hr0 : readers = 0 := by simp only at hr; omega
     subst hr0
-    simp only at hp
+    simp only at hp hd hpo
+    have hpf : poisoned = false := by cases poisoned <;> simp_all
+    subst hpf
     refine ⟨if pc = .idle then .startGrow else .step, ?_⟩
     cases pc <;> simp only [pcInv, good] at hpc <;> simp_all [step, canWrite, canRead] <;> (try (split <;> simp))
 
